@@ -78,8 +78,8 @@ pub fn run_c15(ctx: &Ctx) -> Report {
 			&o(&["s"]),
 			&o(&["h"]),
 			&domains::paths(&["%61", "abc", "a", "%41", "x"].iter().map(|s| domains::b(s)).collect::<Vec<_>>(), 2).into_iter().filter(|p| p.starts_with(b"/")).collect::<Vec<_>>(),
-			&[None],
-			&[None, Some(domains::b("f"))],
+			&[None, Some(domains::b("k:v")), Some(domains::b("k/v"))],
+			&[None, Some(domains::b("f")), Some(domains::b("k:v"))],
 		)
 		.into_iter()
 		.map(|(t, _)| t)
